@@ -1,5 +1,6 @@
 ---------------------------- MODULE EngineLifeMC ----------------------------
 EXTENDS EngineLife
+Ord == <<"c1", "c2", "c3", "d1", "d2">>
 C2 == {"c1", "c2"}
 C1 == {"c1"}
 C3 == {"c1", "c2", "c3"}
